@@ -200,6 +200,25 @@ def build():
         c = BitCrcCalculator(cfg, table_based=bool(r.getrandbits(1)))
         return (c.calculate_checksum(a), c.calculate_checksum(a), BitCrcCalculator(cfg, table_based=False).calculate_checksum(a)), [a]
 
+    def crc_register(r):
+        """the register workflow of crc.py's own docstring (init, update 1..n times, digest) with a caller's configuration: digest is an
+        observation - the register handed to it (tracked from the last update on) is left as it was"""
+        from okdmr.dmrlib.etsi.crc.crc import BitCrcConfiguration, BitCrcRegister, TableBasedBitCrcRegister
+        k = r.randrange(16)
+        w = r.choice([7, 8, 9, 16, 32])
+        cfg = BitCrcConfiguration(polynomial=r.getrandbits(w) | 1, width_bits=w, init_value=r.getrandbits(w) if k & 1 else 0,
+                                  final_xor_value=r.getrandbits(w) if k & 2 else 0, reverse_input_bytes=bool(k & 4),
+                                  reverse_output_bytes=bool(k & 8))
+        a, b = rbits(r, 8 * r.randrange(1, 9)), rbits(r, 8 * r.randrange(1, 5))
+        R = (TableBasedBitCrcRegister if r.getrandbits(1) else BitCrcRegister)(cfg)
+        R.init()
+        R.update(a)
+        track(R)
+        # an odd number of times: two in-place reversals of the register would cancel
+        ds = [R.digest() for _ in range(r.choice([1, 1, 3]))]
+        return ds, [a, b]
+
+    add("crc_register", crc_register, 16)
     add("crc_custom", crc_custom, 16)
     add("crc8", crc8, 4)
     add("crc9", crc9, 4)
@@ -292,6 +311,21 @@ def build():
         return out, bufs
 
     add("vbptc_forms", vbptc_forms, 4)
+
+    def vbptc_parity(r):
+        """the public column-parity helpers of the three VBPTCs on caller-owned columns of the lengths they accept (with and without
+        room for the parity bit): the result is the column with its parity, the caller's column is as it was"""
+        import numpy
+        from okdmr.dmrlib.etsi.fec.vbptc_128_72 import VBPTC12873 as A_
+        from okdmr.dmrlib.etsi.fec.vbptc_32_11 import VBPTC3211 as C_
+        from okdmr.dmrlib.etsi.fec.vbptc_68_28 import VBPTC6828 as B_
+        col = lambda n: track(numpy.array([r.getrandbits(1) for _ in range(n)]))
+        cols = [col(7), col(8), col(3), col(4), col(2), col(2)]
+        out = [A_.set_parity(cols[0]), A_.set_parity(cols[1]), B_.set_parity(cols[2]), B_.set_parity(cols[3]),
+               C_.set_parity(cols[4], True), C_.set_parity(cols[5], False)]
+        return out, cols
+
+    add("vbptc_parity", vbptc_parity, 6)
 
     def talker_alias_text(r):
         """the talker alias text codec of the four alias formats: whole aliases, and the 6 / 7 octet pieces an alias is sent in
